@@ -439,7 +439,8 @@ func ruleStopOnce(c *chk.Ctx, owner string) {
 			c.Pass("RUN.stopOnce", s.fn, owner+" Close guard", s.instr.Pos(), "NonNil(%s) holds at Close under %s", chPath, lock)
 		}
 		q := ir.PathQuery{
-			Goal: func(i ssa.Instruction) bool { return isStoreNilTo(i, chf) },
+			// (the store may be made by a private helper that every path through it passes)
+			Goal: c.P.LiftGoal(func(i ssa.Instruction) bool { return isStoreNilTo(i, chf) }, 0),
 			Bad:  func(i ssa.Instruction) bool { return releases(c, i, lock) },
 		}
 		ok, at := q.MustReach(s.instr)
@@ -588,7 +589,8 @@ func nonEmptyAt(c *chk.Ctx, v ssa.Value, at ssa.Instruction, depth int) (bool, s
 			}
 		}
 	}
-	same := func(x ssa.Value) bool { return x == v }
+	// (a field of a record read twice is one value: go/ssa has no common-subexpression elimination)
+	same := func(x ssa.Value) bool { return x == v || ir.SameValue(x, v) || ir.SameFieldLoad(x, v) }
 	for _, cd := range ir.CondsAt(at.Block()) {
 		if ir.ImpliesNonEmpty(cd, same) {
 			return true, "dominated by a length guard"
